@@ -26,7 +26,20 @@ RULE = ("statement trees (depth 0..6, fan-out 0..5, first statement level may be
         "the file is in one-statement-per-line form), adversarial (character soup over braces, quotes, backslashes, tabs, CR, "
         "vertical tab, non-ASCII: implementation vs model only). Non-ASCII statements raise in pyparsing and are outside the "
         "property's alphabets: generated only in the adversarial stream. non-trivial = a tree of depth>=2 with >=4 statements "
-        "rendered in a non-canonical layout, or a dropped brace, distinct by request line.")
+        "rendered in a non-canonical layout, or a dropped brace, distinct by request line. "
+        "OPTIONS AND ARGUMENT FORMS (added after a line/branch coverage report of the anchored functions, notes/coverage/C08.json; "
+        "channel `bracex`, model Ccp.Model.BraceOpts): stream opts (330) = a well-formed tree in a random layout through one entry point with "
+        "valid option values: BraceParse(...) directly (stop_width in 0,1,2,3,4,5,8,-1,-3; semicolon_end on/off — the oracle then expects "
+        "the semicolons the renderer wrote; comment_delimiters omitted / ['#'] / [] / ['!','#'] / ['a']), convert_junos_to_ios(lines, "
+        "stop_width, comment_delimiters omitted or given), CiscoConfParse(lines, syntax='junos') with factory=True or "
+        "ignore_blank_lines=True (texts and parent links), handle_ccp_brace_syntax with junos or an indentation syntax (lines pass "
+        "through) and the lines as list or tuple; stream args (170) = values the entry points must refuse, several at once so that "
+        "the order of the checks shows: input_list as tuple / None / str / int / dict, stop_width '4' / 4.0 / None, comment_delimiters as "
+        "str / tuple / set or holding a brace, debug not an int, an empty list, config_txt None / int, syntax 'f5' / None / 'JUNOS' / '', "
+        "a tuple of lines with syntax junos (known finding FC08a); stream blankstmt (110) = trees with statements that are a lone ';' "
+        "(they convert to blank lines) parsed with ignore_blank_lines on and off, the oracle expecting the flattening without those "
+        "statements when the option is on. Not generated: a first argument of CiscoConfParse that is no sequence of lines (file names: "
+        "C09/C10), a stop_width of BraceParse that is not an int (refused by typeguard before the code runs).")
 LEVEL_TEXT = ("Theorems (Lean 4, all well-formed statement trees, all layouts whose white space is blank/tab/LF/CR — indentation, "
               "blank lines, trailing white space, semicolons present or absent, brace on the same or a later line, one-line and "
               "empty blocks): converting the rendering returns exactly the preorder flattening with 4 blanks per level "
@@ -36,12 +49,32 @@ LEVEL_TEXT = ("Theorems (Lean 4, all well-formed statement trees, all layouts wh
               "forest (junos_forest); deleting any one closing brace yields ParseException (missing_close_errors, quotes inside "
               "statements and tabs allowed). The model (tab expansion, pyparsing nested_expr/quoted_string tokenizer, recursive "
               "descent, unpack, then pass 1 of the shared bootstrap) is tied to convert_junos_to_ios / "
-              "CiscoConfParse(syntax='junos') texts and parent links by differential runs on every check.")
+              "CiscoConfParse(syntax='junos') texts and parent links by differential runs on every check. "
+              "Options (Ccp.Model.BraceOpts, same differential runs): for EVERY stop_width w (any int, negative = 0) a well-formed tree in "
+              "any layout converts to its flattening with w blanks per enclosing block, through BraceParse directly whatever "
+              "comment_delimiters is and through convert_junos_to_ios with any brace-free delimiter list (brace_roundtrip_any_width, "
+              "flattenW 4 = flatten; proof by re-indenting the width-4 result); the parse of a rendered tree is the same with and without "
+              "ignore_blank_lines — a well-formed statement never converts to a blank line (junos_tree_any_options) — and for every accepted "
+              "input the texts are the converted lines minus, with the option, the blank ones, linked by the shared pass 1, a C03 forest "
+              "(junos_options); the argument ladder of convert_junos_to_ios (tuple / non-list, non-int stop_width, non-list delimiters, "
+              "non-int debug: InvalidParameters in that order; empty list or a brace among the delimiters: ValueError; "
+              "convert_argument_checks), BraceParse(None) = NotImplementedError, handle_ccp_brace_syntax (invalid syntax, then non-sequence: "
+              "InvalidParameters; indentation syntaxes pass list and tuple through; junos converts a list and refuses a tuple; "
+              "handleBrace_spec, junos_tuple_refused); options_default ties the option model to the model above at the default values.")
 LEVEL_NOTE = ("Trusted: Lean kernel; axioms propext/Classical.choice/Quot.sound only; the correspondence harness; pyparsing is "
               "modelled, not verified (behaviour re-implemented by hand and measured). Hypotheses of the theorems: words are "
               "non-empty visible ASCII without braces, the first word of a statement does not start with a quote (F31), the last "
               "word does not end with ';'; for the parent theorem additionally no statement starts with '#' (a '#' line under a "
-              "deeper line is a root by C02's legacy comment exception: F32). Proved about the model, measured against the code.")
+              "deeper line is a root by C02's legacy comment exception: F32). Proved about the model, measured against the code. "
+              "semicolon_end=True: only the token-level statement is proved (semicolon_end_partial: the statement text is the stripped "
+              "token, semicolon included); that the conversion of a rendered tree keeps exactly the semicolons the layout wrote is "
+              "measured (stream opts, oracle) — not proved. The factory has no parameter in the model (it only chooses the class of the "
+              "line objects); factory=True parses are compared with the same model answer. Known finding FC08a: "
+              "CiscoConfParse(tuple_of_lines, syntax='junos') raises InvalidParameters (handle_ccp_brace_syntax lets a tuple through, "
+              "convert_junos_to_ios insists on a list); modelled as the code does it, proposed patch notes/proposed-fixes/C08-1.patch. "
+              "Anchored lines never executed by the quick run: 40 of 134 before the option/argument streams, 11 after: debug logging, the "
+              "unreachable final else of handle_ccp_brace_syntax, bootstrap's own argument checks and the banner / macro passes of the "
+              "indentation syntaxes (C01/C07), which a brace syntax skips.")
 LEVEL_NOTE += (" " + "regexes_as_modelled (Ccp.RxC08): the arguments of the pyparsing calls reached from BraceParse.__init__ (Word(printables, exclude_chars='{}'), White(' '), nested_expr(opener='{', closer='}', content=..) without ignore_expr, parse_string('{'+txt+'}') without parse_all), the ';' test, and the constants of the installed pyparsing (printables, DEFAULT_WHITE_CHARS, the two quoted_string regexes, the ignore_expr / parse_all defaults) are re-read on every run and proved equal to what Model/Brace.lean was written for.")
 EXHAUSTIVE = {"quick": False, "thorough": False}
 ASSUMPTIONS = [
@@ -149,25 +182,33 @@ def node_layout(rng, style, depth, has_kids):
                 close=rng.choice(ws), after=rng.choice(ws))
 
 
-def render(rng, tree, style, depth=0):
-    """layout choices are drawn while rendering; returns the text"""
+def render(rng, tree, style, depth=0, rec=None):
+    """layout choices are drawn while rendering; returns the text (`rec`, if given, receives in preorder whether each
+    statement was written with a semicolon)"""
     out = []
     for i, (words, kids) in enumerate(tree):
         lay = node_layout(rng, style, depth, bool(kids))
-        s = lay["pre"] + " ".join(words) + (";" if lay["semi"] else "") + lay["post"]
+        if rec is not None:
+            rec.append(bool(lay["semi"]))
+        # (a statement that is a lone ';' — stream blankstmt — is its own terminator)
+        s = lay["pre"] + " ".join(words) + (";" if lay["semi"] and words != [";"] else "") + lay["post"]
         if kids or lay["block"]:
-            s += "{" + render(rng, kids, style, depth + 1) + lay["close"] + "}" + lay["after"]
+            s += "{" + render(rng, kids, style, depth + 1, rec) + lay["close"] + "}" + lay["after"]
         elif i + 1 < len(tree):
             s += "\n"          # a leaf and its next sibling are separated by a line break
         out.append(s)
     return "".join(out)
 
 
-def flat(tree, depth=0, out=None):
+def flat(tree, depth=0, out=None, width=4, semis=None):
+    """the preorder flattening, `width` blanks per enclosing block (`semis`: an iterator over the per-statement
+    "written with a semicolon" flags — the semicolon is kept, as BraceParse(semicolon_end=True) does)"""
     out = [] if out is None else out
     for words, kids in tree:
-        out.append(" " * (4 * depth) + " ".join(words))
-        flat(kids, depth + 1, out)
+        semi = ";" if (semis is not None and next(semis)) else ""
+        text = "" if words == [";"] else " ".join(words) + semi      # a lone ';' converts to a blank line
+        out.append(" " * (max(width, 0) * depth) + text)
+        flat(kids, depth + 1, out, width, semis)
     return out
 
 
@@ -208,8 +249,13 @@ def tree_case(rng, kind="tree"):
         _quote_some(rng, tree)
     if kind == "cmtafter":
         _add_comments(rng, tree, safe=False)
-    text = render(rng, tree, style)
-    return mk(kind, text.split("\n"), op="conv", tree=tree, style=style)
+    if kind == "blankstmt":
+        _add_comments(rng, tree, safe=True, blank=True)
+        if not any(n[0] == [";"] for n in _walk(tree)):
+            tree.append([[";"], []])
+    semis = []
+    text = render(rng, tree, style, rec=semis)
+    return mk(kind, text.split("\n"), op="conv", tree=tree, style=style, semis=semis)
 
 
 def _walk(tree):
@@ -224,20 +270,24 @@ def _quote_some(rng, tree):
         n[0] = rng.choice([['"k', '1"', "value"], ["'a'", "b"], ['"/Common/Bot', 'x"'], ['"abc"'], ["'x", "q"]])
 
 
-def _add_comments(rng, tree, safe, depth=0):
-    """insert '#' leaf statements; safe = never directly after a statement that has children, unless at depth 0"""
+def _add_comments(rng, tree, safe, depth=0, blank=False):
+    """insert '#' leaf statements; safe = never directly after a statement that has children, unless at depth 0
+    (blank: insert lone ';' statements instead — they convert to blank lines, which the bootstrap links like comments)"""
     i = 0
     while i <= len(tree):
         prev_has_kids = i > 0 and bool(tree[i - 1][1])
         ok = (depth == 0 or not prev_has_kids) if safe else (depth > 0 and prev_has_kids)
         if ok and rng.random() < (0.25 if safe else 0.7):
-            tree.insert(i, [gen_words(rng, first_ok=lambda w: True)[:3], []])
-            tree[i][0][0] = rng.choice(COMMENT_WORDS)
+            if blank:
+                tree.insert(i, [[";"], []])
+            else:
+                tree.insert(i, [gen_words(rng, first_ok=lambda w: True)[:3], []])
+                tree[i][0][0] = rng.choice(COMMENT_WORDS)
             i += 1
         i += 1
     for _, kids in tree:
         if kids:
-            _add_comments(rng, kids, safe, depth + 1)
+            _add_comments(rng, kids, safe, depth + 1, blank)
 
 
 def drop_case(rng):
@@ -274,6 +324,86 @@ HAND = [[""], ["", ""], [";"], ["a {", ";", "}"], ['"k 1" value;'], ['x "a""'], 
         ["banner motd ^", "a {", "b;", "c {", "d;", "}", "}", "e ^;"], ['d "x { y" ;'], ['"x { y" z;'], ["'a\\x4g' b"], ["'a\\xg' b"], ["a {", "b;  ", "}"]]
 
 
+# ------------------------------------------------------------------ options and argument forms (channel `bracex`)
+STOPS = [0, 1, 2, 3, 4, 4, 5, 8, -1, -3]
+DELIMS = [None, ["#"], [], ["!", "#"], ["a"]]
+
+
+def enc_lines(form, lines):
+    return [form, wire.enc_strs(lines if form != "X" else [])]
+
+
+def enc_delims(d):
+    return "X" if d == "X" else ("N" if d is None else "=" + wire.enc_strs(d))
+
+
+def mkx(kind, sub, lines, **extra):
+    """one call of the API around the conversion; `sub`:
+    bp  BraceParse(config_txt, comment_delimiters, stop_width, semicolon_end) directly
+    cj  convert_junos_to_ios(input_list, stop_width, comment_delimiters, debug)
+    hb  CiscoConfParse.handle_ccp_brace_syntax(tmp_lines, syntax)
+    pw  CiscoConfParse(lines, syntax='junos', factory=.., ignore_blank_lines=..): texts and parent links"""
+    c = {"kind": kind, "sub": sub, "lines": lines, "op": sub}
+    c.update(extra)
+    form = c.get("form", "L")
+    if sub == "bp":
+        c["req"] = wire.req("bracex", "bp", c.get("txtform", "S"), wire.enc_str("\n".join(lines)), enc_delims(c.get("delims")),
+                            str(c.get("stop", 4)), "1" if c.get("semi_end") else "0")
+    elif sub == "cj":
+        c["req"] = wire.req("bracex", "cj", *enc_lines(form, lines), str(c.get("stop", 4)), enc_delims(c.get("delims")),
+                            "0" if c.get("debug_bad") else "1")
+    elif sub == "hb":
+        c["req"] = wire.req("bracex", "hb", c.get("syn", "J"), *enc_lines(form, lines))
+    else:
+        c["req"] = wire.req("bracex", "pw", "1" if c.get("ign") else "0", *enc_lines(form, lines))
+    return c
+
+
+def opts_case(rng):
+    """a well-formed tree in a random layout, through one of the entry points with valid option values"""
+    base = tree_case(rng)
+    lines, keep = base["lines"], dict(tree=base["tree"], style=base["style"], semis=base["semis"])
+    r = rng.random()
+    if r < 0.30:
+        return mkx("opts", "bp", lines, stop=rng.choice(STOPS), semi_end=rng.random() < 0.5, delims=rng.choice(DELIMS), **keep)
+    if r < 0.55:
+        return mkx("opts", "cj", lines, stop=rng.choice(STOPS), delims=rng.choice(DELIMS), **keep)
+    if r < 0.85:
+        ign = rng.random() < 0.5
+        return mkx("opts", "pw", lines, ign=ign, factory=(not ign and rng.random() < 0.7), **keep)
+    return mkx("opts", "hb", lines, syn=rng.choice(["J", "J", "I"]), synname=rng.choice(["ios", "nxos", "asa", "iosxr"]),
+               form=rng.choice(["L", "L", "T"]), **keep)
+
+
+def args_case(rng):
+    """argument values the entry points must refuse (several at once: the order of the checks shows)"""
+    base = tree_case(rng)
+    lines = base["lines"]
+    r = rng.random()
+    if r < 0.5:
+        return mkx("args", "cj", [] if rng.random() < 0.15 else lines,
+                   form=rng.choice(["L", "L", "T", "X"]), stop=rng.choice([4, 4, 2, "X"]),
+                   delims=rng.choice([None, ["#"], "X", ["{"], ["#", "}"], ["{", "}"]]), debug_bad=rng.random() < 0.25)
+    if r < 0.6:
+        return mkx("args", "bp", lines, txtform="X", stop=rng.choice(STOPS), semi_end=rng.random() < 0.5)
+    if r < 0.85:
+        return mkx("args", "hb", lines, syn=rng.choice(["J", "I", "X", "X"]), synname=rng.choice(["ios", "asa"]),
+                   badsyn=rng.choice(["f5", None, "JUNOS", ""]), form=rng.choice(["L", "T", "X", "X"]))
+    # (a value that is no sequence of lines at all is the constructor's business — file names, C09/C10 — not generated)
+    return mkx("args", "pw", lines, form="T", ign=rng.random() < 0.3)
+
+
+def blank_case(rng):
+    """statements that are a lone ';' convert to blank lines (their text is empty: outside the property's trees, but
+    the text / indentation / parent rule reads the same for them); ignore_blank_lines drops them before the lines
+    are linked"""
+    base = tree_case(rng, "blankstmt")
+    lines, keep = base["lines"], dict(tree=base["tree"], style=base["style"], semis=base["semis"])
+    if rng.random() < 0.7:
+        return mkx("blankstmt", "pw", lines, ign=rng.random() < 0.6, factory=False, **keep)
+    return mkx("blankstmt", "cj", lines, stop=rng.choice(STOPS), delims=["#"], **keep)
+
+
 def cases(rng, tier):
     if tier != "search":
         for h in HAND:
@@ -297,6 +427,14 @@ def cases(rng, tier):
             yield tree_case(rng, "cmtafter")
         else:
             yield soup_case(rng)
+    # the option / argument streams come last: the cases above are, seed by seed, the ones generated before they existed
+    nx = {"quick": (330, 170, 110), "thorough": (9000, 4000, 2500), "search": (400, 200, 100)}[tier]
+    for _ in range(nx[0]):
+        yield opts_case(rng)
+    for _ in range(nx[1]):
+        yield args_case(rng)
+    for _ in range(nx[2]):
+        yield blank_case(rng)
 
 
 def neighbours(case, rng):
@@ -317,6 +455,10 @@ def _canonical_layout(case):
 def nontrivial(case):
     if case["kind"] == "drop":
         return True
+    if case["kind"] == "opts":
+        return tree_depth(case["tree"]) >= 2 and tree_size(case["tree"]) >= 4
+    if case["kind"] in ("args", "blankstmt"):
+        return True
     if case["kind"] != "tree":
         return False
     t = case["tree"]
@@ -325,7 +467,8 @@ def nontrivial(case):
 
 def describe(case):
     d = {"kind": case["kind"], "lines": case["lines"][:40]}
-    for k in ("style", "name", "dropped"):
+    for k in ("style", "name", "dropped", "sub", "form", "stop", "delims", "semi_end", "debug_bad", "syn", "synname", "badsyn",
+              "ign", "factory", "txtform"):
         if k in case:
             d[k] = case[k]
     return d
@@ -333,6 +476,13 @@ def describe(case):
 
 def buckets(case, ans):
     out = ["kind:" + case["kind"], "answer:" + (ans.split("|")[0])]
+    if "sub" in case:
+        out.append("entry:" + case["sub"])
+        for k in ("stop", "semi_end", "form", "syn", "ign", "factory", "txtform", "debug_bad"):
+            if k in case:
+                out.append(f"opt:{case['sub']}:{k}={case[k]}")
+        if "delims" in case:
+            out.append(f"opt:{case['sub']}:delims={'omitted' if case['delims'] is None else case['delims']}")
     if "tree" in case:
         out.append("levels:%d" % tree_depth(case["tree"]))
         out.append("statements:%s" % ("0" if not tree_size(case["tree"]) else "1-3" if tree_size(case["tree"]) < 4 else
@@ -356,7 +506,57 @@ def buckets(case, ans):
 
 
 # ------------------------------------------------------------------ implementation
+def py_lines(case):
+    form = case.get("form", "L")
+    if form == "L":
+        return list(case["lines"])
+    if form == "T":
+        return tuple(case["lines"])
+    return [None, "a { b; }", 5, {"a": 1}][len(case["lines"]) % 4]
+
+
+def impl_x(case):
+    """the entry points around the conversion, with the option values / argument forms of the case"""
+    ccp = quiet_ccp()
+    from ciscoconfparse2.ciscoconfparse2 import convert_junos_to_ios, BraceParse
+    sub = case["sub"]
+    try:
+        if sub == "bp":
+            txt = "\n".join(case["lines"]) if case.get("txtform", "S") == "S" else [None, 5][len(case["lines"]) % 2]
+            kw = dict(stop_width=case.get("stop", 4), semicolon_end=bool(case.get("semi_end")))
+            if case.get("delims") is not None:
+                kw["comment_delimiters"] = list(case["delims"])
+            return "ok|" + wire.enc_strs([o.text for o in BraceParse(config_txt=txt, **kw).get_junoscfgline_list()])
+        if sub == "cj":
+            kw = {}
+            stop = case.get("stop", 4)
+            kw["stop_width"] = ["4", 4.0, None][len(case["lines"]) % 3] if stop == "X" else stop
+            d = case.get("delims")
+            if d == "X":
+                kw["comment_delimiters"] = ["#", ("#",), {"#"}][len(case["lines"]) % 3]
+            elif d is not None:
+                kw["comment_delimiters"] = list(d)
+            if case.get("debug_bad"):
+                kw["debug"] = ["1", None, 1.5][len(case["lines"]) % 3]
+            return "ok|" + wire.enc_strs(convert_junos_to_ios(py_lines(case), **kw))
+        if sub == "hb":
+            p = ccp.CiscoConfParse(["x"], syntax="junos")
+            syn = {"J": "junos", "I": case.get("synname", "ios")}.get(case.get("syn", "J"), case.get("badsyn"))
+            out = p.handle_ccp_brace_syntax(tmp_lines=py_lines(case), syntax=syn)
+            return "ok|" + wire.enc_strs(list(out))
+        p = ccp.CiscoConfParse(py_lines(case), syntax="junos", factory=bool(case.get("factory")),
+                               ignore_blank_lines=bool(case.get("ign")))
+        parents = [("r" if o.parent is o else str(o.parent.linenum)) for o in p.objs]
+        if [o.linenum for o in p.objs] != list(range(len(p.objs))):
+            return "bad-linenums"
+        return "ok|" + wire.enc_strs(p.get_text()) + "|" + ",".join(parents)
+    except Exception as e:  # noqa: BLE001 — the class is the outcome
+        return exc_class(e)
+
+
 def impl(case):
+    if "sub" in case:
+        return impl_x(case)
     ccp = quiet_ccp()
     from ciscoconfparse2.ciscoconfparse2 import convert_junos_to_ios
     lines = case["lines"]
@@ -413,7 +613,77 @@ def canon_convert(lines):
     return out if depth == 0 else None
 
 
+def want_error(case):
+    """the documented refusal of an entry point for the argument forms of the case (None = must be accepted)"""
+    sub, form = case["sub"], case.get("form", "L")
+    if sub == "bp":
+        return "err:NotImplementedError" if case.get("txtform", "S") == "X" else None
+    if sub == "cj":
+        if form != "L" or case.get("stop") == "X" or case.get("delims") == "X" or case.get("debug_bad"):
+            return "err:InvalidParameters"
+        d = case.get("delims") or []
+        if not case["lines"] or "{" in d or "}" in d:
+            return "err:ValueError"
+        return None
+    if sub == "hb":
+        if case.get("syn") == "X" or form == "X":
+            return "err:InvalidParameters"
+        return None
+    return "err:InvalidParameters" if form == "X" else None
+
+
+def oracle_x(case, ans):
+    kind, sub = case["kind"], case["sub"]
+    we = want_error(case)
+    if we is not None:
+        return [] if ans == we else [f"{sub} with malformed arguments: {ans}, expected {we}"]
+    if case.get("form") == "T" and not (sub == "hb" and case.get("syn") == "I"):
+        # a tuple of lines is a sequence of lines like a list (handle_ccp_brace_syntax lets it through)
+        if ans.startswith("err:"):
+            return [f"tuple-input: a well-formed brace config given as a tuple of lines is rejected with {ans}"]
+    if kind == "args":
+        if sub == "hb" and case.get("syn") == "I":
+            return [] if ans == "ok|" + wire.enc_strs(case["lines"]) else ["non-brace syntax: the lines are not passed through unchanged"]
+        if ans.startswith("err:"):
+            return [f"{sub}: valid arguments rejected with {ans}"]
+        return []
+    # kind == "opts" / "blankstmt": a well-formed tree
+    if not ans.startswith(("ok|", "err:")):
+        return [f"{sub}: {ans}"]
+    tree = case["tree"]
+    if kind == "blankstmt" and case.get("ign"):
+        tree = _without_blank(tree)      # ignore_blank_lines: as if the lone ';' statements were not there
+    if ans.startswith("err:"):
+        return [f"{sub}: well-formed brace config rejected with {ans}"]
+    f = ans.split("|")
+    got = wire.dec_strs(f[1])
+    if sub == "hb" and case.get("syn") == "I":
+        return [] if got == case["lines"] else ["non-brace syntax: the lines are not passed through unchanged"]
+    if sub in ("bp", "cj"):
+        width = case.get("stop", 4)
+        want = flat(tree, width=width, semis=iter(case["semis"]) if (sub == "bp" and case.get("semi_end")) else None)
+    else:
+        want = flat(tree)
+    if got != want:
+        i = next((i for i, (a, b) in enumerate(zip(got, want)) if a != b), min(len(got), len(want)))
+        return [f"{sub} {({k: case[k] for k in ('stop', 'semi_end', 'ign', 'factory', 'delims') if k in case})}: texts differ at "
+                f"line {i}: got {got[i:i+2]!r} expected {want[i:i+2]!r} ({len(got)} vs {len(want)} lines)"]
+    if sub == "pw":
+        gp = f[2].split(",") if len(f) > 2 and f[2] else []
+        wp = [("r" if p is None else str(p)) for p in tree_parents(tree)]
+        if gp != wp:
+            i = next(i for i, (a, b) in enumerate(zip(gp, wp)) if a != b)
+            return [f"pw: parent of line {i} ({want[i]!r}) is {gp[i]} expected {wp[i]}"]
+    return []
+
+
+def _without_blank(tree):
+    return [[w, _without_blank(k)] for w, k in tree if w != [";"]]
+
+
 def oracle(case, ans):
+    if "sub" in case:
+        return oracle_x(case, ans)
     kind = case["kind"]
     fails = []
     if "get_text-differs" in ans or "|parse:" in ans:
@@ -461,6 +731,8 @@ def _impl_parents(case):
 
 
 def known_id(case, failure):
+    if failure.startswith("tuple-input:") and "InvalidParameters" in failure and case.get("form") == "T":
+        return "FC08a"
     if case["kind"] == "quotestart" and failure.startswith("texts differ") and \
             any(isq(n[0][0]) for n in _walk(case["tree"])):
         return "F31"
